@@ -21,6 +21,10 @@ pub(crate) struct IterVectorsMut<'a, T> {
     lower: NonNull<T>,
     upper: NonNull<T>,
     layout: Option<Layout>,
+    /// Number of empty vectors still to be yielded. This is non-zero
+    /// only for a matrix without elements but with a non-zero extent
+    /// along the iterated axis (e.g. the rows of a 3x0 matrix).
+    empty_vectors: usize,
     marker: PhantomData<&'a mut T>,
 }
 
@@ -37,7 +41,7 @@ unsafe impl<T: Sync> Sync for IterVectorsMut<'_, T> {}
 impl<'a, T> IterVectorsMut<'a, T> {
     pub(crate) fn over_major_axis(matrix: &'a mut Matrix<T>) -> Self {
         if matrix.is_empty() {
-            return Self::empty();
+            return Self::empty(matrix.major());
         }
 
         unsafe {
@@ -59,7 +63,7 @@ impl<'a, T> IterVectorsMut<'a, T> {
 
     pub(crate) fn over_minor_axis(matrix: &'a mut Matrix<T>) -> Self {
         if matrix.is_empty() {
-            return Self::empty();
+            return Self::empty(matrix.minor());
         }
 
         unsafe {
@@ -83,13 +87,19 @@ impl<'a, T> IterVectorsMut<'a, T> {
     ///
     /// This returns a detached iterator whose lifetime is not bound to
     /// any matrix. However, it is safe.
-    fn empty() -> Self {
+    fn empty(empty_vectors: usize) -> Self {
         Self {
             lower: NonNull::dangling(),
             upper: NonNull::dangling(),
             layout: None,
+            empty_vectors,
             marker: PhantomData,
         }
+    }
+
+    fn next_empty_vector(&mut self) -> Option<IterNthVectorMut<'a, T>> {
+        self.empty_vectors = self.empty_vectors.checked_sub(1)?;
+        Some(IterNthVectorMut::empty())
     }
 
     /// This is a helper function that abstracts some repetitive code,
@@ -150,6 +160,7 @@ impl<'a, T> IterVectorsMut<'a, T> {
             lower,
             upper,
             layout,
+            empty_vectors: 0,
             marker: PhantomData,
         }
     }
@@ -159,7 +170,9 @@ impl<'a, T> Iterator for IterVectorsMut<'a, T> {
     type Item = IterNthVectorMut<'a, T>;
 
     fn next(&mut self) -> Option<Self::Item> {
-        let layout = self.layout?;
+        let Some(layout) = self.layout else {
+            return self.next_empty_vector();
+        };
 
         let result = unsafe {
             IterNthVectorMut::assemble(self.lower, layout.vector_stride, layout.vector_length)
@@ -183,7 +196,7 @@ impl<'a, T> Iterator for IterVectorsMut<'a, T> {
 
     fn size_hint(&self) -> (usize, Option<usize>) {
         let len = match self.layout {
-            None => 0,
+            None => self.empty_vectors,
             Some(strides) => {
                 let stride = strides.axis_stride.get();
                 let elem_size = size_of::<T>();
@@ -203,7 +216,9 @@ impl<T> ExactSizeIterator for IterVectorsMut<'_, T> {
 
 impl<T> DoubleEndedIterator for IterVectorsMut<'_, T> {
     fn next_back(&mut self) -> Option<Self::Item> {
-        let layout = self.layout?;
+        let Some(layout) = self.layout else {
+            return self.next_empty_vector();
+        };
 
         let result = unsafe {
             IterNthVectorMut::assemble(self.upper, layout.vector_stride, layout.vector_length)
